@@ -142,6 +142,7 @@ type kitchen struct {
 	opInfo []kOpInfo
 	// parsed paged queries, one set per concurrent caller (a parsed query is not safe for concurrent use)
 	pagedPool sync.Pool
+	noReads   bool
 }
 
 // kPaged: paged / sorted queries evaluated through parent and child stores (id order, so the expected
@@ -445,10 +446,13 @@ func (k *kitchen) buildOps() {
 		for _, via := range []string{"people", "mgr", "prof"} {
 			via := via
 			store := k.storeFor(via)
-			for _, name := range []string{"A", "B"} {
+			for _, name := range []string{"A", "B", ""} {
 				for _, roles := range [][]string{nil, {"r"}} {
 					for _, org := range orgChoices {
 						name, roles, org := name, roles, org
+						if name == "" && (roles != nil || org != nil) {
+							continue // the empty value of the non-nullable unique index: once per store and id
+						}
 						desc := fmt.Sprintf("(%s,name=%s,roles=%v,org=%s)", id, name, roles, orgS(org))
 						k.add(kOpInfo{"create", id, via}, explore.Op{
 							Name: "create@" + via + desc,
@@ -468,6 +472,9 @@ func (k *kitchen) buildOps() {
 									return []string{"exists"}
 								}
 								var errs []string
+								if name == "" {
+									errs = append(errs, "empty")
+								}
 								if m.nameTaken(id, name) {
 									errs = append(errs, "dup")
 								}
@@ -531,6 +538,9 @@ func (k *kitchen) buildOps() {
 										nr, no = world.Dedup(roles), org
 									}
 									var errs []string
+									if nn != cur.name && nn == "" {
+										errs = append(errs, "empty")
+									}
 									if nn != cur.name && m.nameTaken(id, nn) {
 										errs = append(errs, "dup")
 									}
@@ -710,6 +720,9 @@ func drain(c ast.SetCursor) []string {
 
 // Invariant: reads through parent and child stores (C15) and index reads.
 func (k *kitchen) Invariant(tx *bbolt.Tx, mm explore.Model) error {
+	if k.noReads {
+		return nil // the caller only wants the reachable states; it does its own reads
+	}
 	m := mm.(*kModel)
 	var all, mgrs, profs []string
 	for id, p := range m.people {
